@@ -843,3 +843,392 @@ Section Reader.
       apply get_decompressed_seg; [exact Hx|]. rewrite Ee. discriminate.
   Qed.
 End Reader.
+
+(* ------------------------------------------------------------------------------------------------ *)
+(* values: np.frombuffer / tobytes, NumberOfComponents                                                *)
+(* ------------------------------------------------------------------------------------------------ *)
+Definition in_range (t : vtype) (z : Z) : Prop :=
+  match t with
+  | VInt w => (- (256 ^ Z.of_nat w / 2) <= z < 256 ^ Z.of_nat w / 2)%Z
+  | VUInt w | VFloat w => (0 <= z < 256 ^ Z.of_nat w)%Z
+  end.
+
+Lemma value_unsigned_roundtrip t z : (0 < vwidth t)%nat -> in_range t z ->
+  unsigned_of t z < 256 ^ N.of_nat (vwidth t) /\ value_of t (unsigned_of t z) = z.
+Proof.
+  intros Hw Hr. destruct t as [w|w|w]; simpl in *.
+  - split; [apply to_unsigned_bound|apply signed_roundtrip; assumption].
+  - split; [|apply Z2N.id; lia]. apply N2Z.inj_lt. rewrite Z2N.id, pow256_Z by lia. lia.
+  - split; [|apply Z2N.id; lia]. apply N2Z.inj_lt. rewrite Z2N.id, pow256_Z by lia. lia.
+Qed.
+
+Lemma lenN_encode_values bo t vals : lenN (encode_values bo t vals) = N.of_nat (vwidth t) * lenN vals.
+Proof.
+  unfold encode_values. induction vals as [|z vals IH]; [cbn [map concat]; rewrite !lenN_nil, N.mul_0_r; reflexivity|].
+  cbn [map concat]. rewrite lenN_app, IH, lenN_int_to_bytes, lenN_cons. lia.
+Qed.
+
+Lemma wf_encode_values bo t vals : wf (encode_values bo t vals).
+Proof.
+  unfold encode_values. apply wf_concat. apply Forall_forall. intros r Hr.
+  apply in_map_iff in Hr. destruct Hr as [z [<- _]]. apply wf_int_to_bytes.
+Qed.
+
+(* values -> bytes -> values for all ten types and both byte orders *)
+Theorem values_roundtrip bo t vals : (0 < vwidth t)%nat -> Forall (in_range t) vals ->
+  decode_values bo t (encode_values bo t vals) = Some vals.
+Proof.
+  intros Hw Hr. unfold decode_values, encode_values, ints_of, words.
+  rewrite splitN_concat.
+  - cbn [option_map]. f_equal. rewrite !map_map. rewrite <- (map_id vals) at 2. apply map_ext_in.
+    intros z Hz. rewrite Forall_forall in Hr. destruct (value_unsigned_roundtrip t z Hw (Hr z Hz)) as [B V].
+    rewrite int_bytes_roundtrip by exact B. exact V.
+  - lia.
+  - apply Forall_forall. intros r Hin. apply in_map_iff in Hin. destruct Hin as [z [<- _]].
+    apply lenN_int_to_bytes.
+Qed.
+
+(* reshape with NumberOfComponents undoes the row-major flattening *)
+Theorem reshape_flatten {A} (nc : N) (rows : list (list A)) : 1 <= nc -> Forall (fun r => lenN r = nc) rows ->
+  reshape nc (flatten_rows rows) = Some rows.
+Proof.
+  intros Hnc Hall. unfold reshape, flatten_rows.
+  destruct (N.leb_spec nc 1) as [H1|H1].
+  - assert (nc = 1) by lia. subst nc. f_equal. induction Hall as [|r rows Hr Hrows IH]; [reflexivity|].
+    destruct r as [|a [|b r]].
+    + rewrite lenN_nil in Hr. discriminate.
+    + simpl. rewrite IH. reflexivity.
+    + rewrite !lenN_cons in Hr. lia.
+  - apply splitN_concat; [lia|exact Hall].
+Qed.
+
+Lemma lenN_concat_rows {A} (nc : N) (rows : list (list A)) : Forall (fun r => lenN r = nc) rows ->
+  lenN (concat rows) = lenN rows * nc.
+Proof.
+  intros H. induction H as [|r rows Hr Hrows IH]; [reflexivity|].
+  cbn [concat]. rewrite lenN_app, lenN_cons, IH, Hr. lia.
+Qed.
+
+(* C13, data-array level: the reader applied to what VTUWriter._make_data_array_element emits returns the rows that
+   were written -- same values (bit patterns for floats), same number of components, row-major *)
+Theorem vtu_write_read bo t nc rows :
+  (0 < vwidth t)%nat -> 1 <= nc -> Forall (fun r => lenN r = nc) rows -> Forall (Forall (in_range t)) rows ->
+  lenN rows * nc * N.of_nat (vwidth t) < 2 ^ 64 ->
+  read_written_array bo t nc (write_data_array bo t nc rows) = Some rows.
+Proof.
+  intros Hw Hnc Hshape Hrange Hsize. unfold read_written_array, write_data_array.
+  set (payload := encode_values bo t (flatten_rows rows)).
+  assert (Lp : lenN payload = lenN rows * nc * N.of_nat (vwidth t)).
+  { unfold payload. rewrite lenN_encode_values. unfold flatten_rows. rewrite (lenN_concat_rows nc) by exact Hshape. lia. }
+  rewrite <- Lp.
+  assert (E : b64enc (int_to_bytes bo 8 (lenN payload) ++ payload)
+              = enc_array (fun b => b) bo H64 None B64 false payload ++ []).
+  { unfold enc_array, enc_segments, header_bytes. cbn [map concat hsz]. rewrite !app_nil_r. reflexivity. }
+  rewrite E. rewrite read_uncompressed_correct.
+  - unfold payload. rewrite values_roundtrip.
+    + apply reshape_flatten; assumption.
+    + exact Hw.
+    + unfold flatten_rows. apply Forall_concat. exact Hrange.
+  - apply wf_encode_values.
+  - rewrite Lp. exact Hsize.
+  - intros _. apply b64_ok_nil.
+Qed.
+
+(* the header written by the writer, len(values) * ncomps * itemsize, is the byte length of the payload *)
+Theorem writer_header_is_payload_length bo t nc rows : Forall (fun r => lenN r = nc) rows ->
+  lenN rows * nc * N.of_nat (vwidth t) = lenN (encode_values bo t (flatten_rows rows)).
+Proof.
+  intros H. rewrite lenN_encode_values. unfold flatten_rows. rewrite (lenN_concat_rows nc) by exact H. lia.
+Qed.
+
+(* ------------------------------------------------------------------------------------------------ *)
+(* VTUReader._make_mesh: regrouping of the flat connectivity / offsets / types arrays per cell type    *)
+(* ------------------------------------------------------------------------------------------------ *)
+Notation cell := (N * list N)%type.                         (* (vtk type id, corners) *)
+Definition file_connectivity (cl : list cell) : list N := concat (map snd cl).
+Definition file_offsets (cl : list cell) : list N := running 0 (map (fun c => lenN (snd c)) cl).
+Definition file_types (cl : list cell) : list N := map fst cl.
+Definition cells_with_type (t : N) (cl : list cell) : list (list N) := map snd (filter (fun c => fst c =? t) cl).
+(* the reader takes the corner count of the first cell of a type for all cells of the type *)
+Definition uniform (cl : list cell) : Prop :=
+  forall c1 c2, In c1 cl -> In c2 cl -> fst c1 = fst c2 -> lenN (snd c1) = lenN (snd c2).
+
+Lemma running_nth lens : forall acc j, (j <= length lens)%nat ->
+  nth j (acc :: running acc lens) 0 = acc + sumN (firstn j lens).
+Proof.
+  induction lens as [|x lens IH]; intros acc j Hj.
+  - simpl in Hj. assert (j = 0%nat) by lia. subst j. simpl. lia.
+  - destruct j as [|j]; [simpl; lia|].
+    change (nth (S j) (acc :: running acc (x :: lens)) 0) with (nth j ((acc + x) :: running (acc + x) lens) 0).
+    rewrite IH by (simpl in Hj; lia). cbn [firstn sumN]. lia.
+Qed.
+
+Lemma sumN_firstn_lens (cl : list cell) j :
+  sumN (firstn j (map (fun c => lenN (snd c)) cl)) = lenN (concat (map snd (firstn j cl))).
+Proof.
+  rewrite <- sumN_map_lenN. rewrite !firstn_map, map_map. reflexivity.
+Qed.
+
+Lemma nth_error_split {A} (l : list A) j c : nth_error l j = Some c -> l = firstn j l ++ c :: skipn (S j) l.
+Proof.
+  revert j. induction l as [|a l IH]; intros [|j] H; try discriminate.
+  - simpl in H. inversion H; subst. reflexivity.
+  - simpl in H. cbn [firstn skipn app]. f_equal. apply IH. exact H.
+Qed.
+
+Lemma cell_at_offset (cl : list cell) j c : nth_error cl j = Some c ->
+  let offs0 := 0 :: file_offsets cl in
+  nthN offs0 (N.of_nat j + 1) 0 - nthN offs0 (N.of_nat j) 0 = lenN (snd c) /\
+  takeN (lenN (snd c)) (dropN (nthN offs0 (N.of_nat j) 0) (file_connectivity cl)) = snd c.
+Proof.
+  intros Hn offs0. unfold offs0, file_offsets, nthN.
+  assert (Hj : (j < length cl)%nat) by (apply nth_error_Some; congruence).
+  replace (N.to_nat (N.of_nat j + 1)) with (S j) by lia. rewrite Nat2N.id.
+  rewrite (running_nth _ 0 (S j)) by (rewrite map_length; lia).
+  rewrite (running_nth _ 0 j) by (rewrite map_length; lia).
+  rewrite !sumN_firstn_lens.
+  pose proof (nth_error_split cl j c Hn) as Hs.
+  assert (F : firstn (S j) cl = firstn j cl ++ [c]).
+  { rewrite Hs at 1. rewrite firstn_app. rewrite firstn_firstn, firstn_length.
+    replace (Nat.min (S j) j) with j by lia. replace (S j - Nat.min j (length cl))%nat with 1%nat by lia.
+    reflexivity. }
+  rewrite F, map_app, concat_app, lenN_app. cbn [map concat]. rewrite app_nil_r. split; [lia|].
+  unfold file_connectivity. rewrite Hs at 2. rewrite map_app, concat_app. cbn [map concat].
+  rewrite N.add_0_l, dropN_app_len, takeN_app_len. reflexivity.
+Qed.
+
+Lemma indices_of_spec t : forall (suf : list cell) from i,
+  In i (indices_of t from (map fst suf)) ->
+  exists j c, i = from + N.of_nat j /\ nth_error suf j = Some c /\ fst c = t.
+Proof.
+  induction suf as [|c suf IH]; intros from i Hi; [destruct Hi|].
+  cbn [map indices_of] in Hi. destruct (N.eqb_spec (fst c) t) as [E|E].
+  - destruct Hi as [<-|Hi].
+    + exists 0%nat, c. repeat split; [lia|assumption].
+    + destruct (IH _ _ Hi) as [j [c' [H1 [H2 H3]]]]. exists (S j), c'. repeat split; [lia|assumption|assumption].
+  - destruct (IH _ _ Hi) as [j [c' [H1 [H2 H3]]]]. exists (S j), c'. repeat split; [lia|assumption|assumption].
+Qed.
+
+Lemma indices_of_map {B} t (g : N -> B) (h : cell -> B) : forall (suf : list cell) from,
+  (forall j c, nth_error suf j = Some c -> fst c = t -> g (from + N.of_nat j) = h c) ->
+  map g (indices_of t from (map fst suf)) = map h (filter (fun c => fst c =? t) suf).
+Proof.
+  induction suf as [|c suf IH]; intros from H; [reflexivity|].
+  cbn [map indices_of filter].
+  assert (Ht : forall j c', nth_error suf j = Some c' -> fst c' = t -> g (from + 1 + N.of_nat j) = h c').
+  { intros j c' H1 H2. replace (from + 1 + N.of_nat j) with (from + N.of_nat (S j)) by lia. apply H; assumption. }
+  destruct (N.eqb_spec (fst c) t) as [E|E].
+  - cbn [map]. f_equal; [|apply IH; exact Ht].
+    replace from with (from + N.of_nat 0) by lia. apply H; [reflexivity|exact E].
+  - apply IH. exact Ht.
+Qed.
+
+Theorem cells_of_type_correct (cl : list cell) t : uniform cl ->
+  cells_of_type (file_connectivity cl) (0 :: file_offsets cl) (file_types cl) t = cells_with_type t cl.
+Proof.
+  intros Hu. unfold cells_of_type, cells_with_type, file_types.
+  destruct (indices_of t 0 (map fst cl)) as [|i0 rest] eqn:Ei.
+  - (* no cell of this type *)
+    assert (E : map (fun _ : N => @nil N) (indices_of t 0 (map fst cl)) = map snd (filter (fun c => fst c =? t) cl)).
+    { apply indices_of_map. intros j c Hn Hc. exfalso.
+      assert (In (0 + N.of_nat j) (indices_of t 0 (map fst cl))).
+      { clear Ei. revert j Hn. generalize 0 as from. induction cl as [|c0 cl IH]; intros from j Hn; [destruct j; discriminate|].
+        cbn [map indices_of]. destruct j as [|j].
+        - simpl in Hn. inversion Hn; subst c0. rewrite Hc, N.eqb_refl. left. lia.
+        - simpl in Hn. assert (Hu' : uniform cl).
+          { intros a b Ha Hb. apply Hu; right; assumption. }
+          specialize (IH Hu' (from + 1) j Hn). replace (from + N.of_nat (S j)) with (from + 1 + N.of_nat j) by lia.
+          destruct (fst c0 =? t); [right|]; exact IH. }
+      rewrite Ei in H. destruct H. }
+    rewrite Ei in E. simpl in E. exact E.
+  - assert (Hi0 : In i0 (indices_of t 0 (map fst cl))) by (rewrite Ei; left; reflexivity).
+    destruct (indices_of_spec t cl 0 i0 Hi0) as [j0 [c0 [Hj0 [Hn0 Ht0]]]].
+    rewrite N.add_0_l in Hj0. subst i0.
+    destruct (cell_at_offset cl j0 c0 Hn0) as [Hnc _]. rewrite Hnc.
+    rewrite <- Ei. apply indices_of_map. intros j c Hn Hc. rewrite N.add_0_l.
+    destruct (cell_at_offset cl j c Hn) as [_ Hcell].
+    assert (L : lenN (snd c0) = lenN (snd c)).
+    { apply Hu; [eapply nth_error_In; exact Hn0|eapply nth_error_In; exact Hn|congruence]. }
+    rewrite L. exact Hcell.
+Qed.
+
+(* np.unique(types): ascending, without repetition, the same set *)
+Lemma insert_uniq_in t l u : In u (insert_uniq t l) <-> u = t \/ In u l.
+Proof.
+  induction l as [|a l IH]; simpl; [intuition|].
+  destruct (N.ltb_spec t a); [simpl; intuition|].
+  destruct (N.eqb_spec t a); [subst; simpl; intuition|]. simpl. rewrite IH. intuition.
+Qed.
+
+Lemma unique_sorted_in l u : In u (unique_sorted l) <-> In u l.
+Proof.
+  unfold unique_sorted. induction l as [|a l IH]; simpl; [tauto|]. rewrite insert_uniq_in, IH. intuition.
+Qed.
+
+Fixpoint ascending (l : list N) : Prop :=
+  match l with
+  | a :: ((b :: _) as r) => a < b /\ ascending r
+  | _ => True
+  end.
+
+Lemma insert_uniq_ascending t l : ascending l -> ascending (insert_uniq t l).
+Proof.
+  induction l as [|a l IH]; intros H; [exact I|].
+  cbn [insert_uniq]. destruct (N.ltb_spec t a) as [Hlt|Hge]; [split; assumption|].
+  destruct (N.eqb_spec t a) as [E|E]; [exact H|].
+  destruct l as [|b l].
+  - simpl. split; [lia|exact I].
+  - destruct H as [Hab Hr]. specialize (IH Hr). cbn [insert_uniq] in *.
+    destruct (N.ltb_spec t b); [split; [lia|exact IH]|].
+    destruct (N.eqb_spec t b); [split; assumption|]. split; [assumption|exact IH].
+Qed.
+
+Lemma unique_sorted_ascending l : ascending (unique_sorted l).
+Proof.
+  unfold unique_sorted. induction l as [|a l IH]; [exact I|]. simpl. apply insert_uniq_ascending. exact IH.
+Qed.
+
+(* DESIGN 7/C05 vtu_regroup_correct: the mesh handed out by the reader has, for every cell type occurring in the file
+   (in ascending type id), exactly the cells of that type in file order -- whatever the interleaving in the file *)
+Theorem vtu_regroup_correct (cl : list cell) : uniform cl ->
+  regroup_cells (file_connectivity cl) (file_offsets cl) (file_types cl)
+  = map (fun t => (t, cells_with_type t cl)) (unique_sorted (file_types cl)).
+Proof.
+  intros Hu. unfold regroup_cells. apply map_ext. intros t. rewrite cells_of_type_correct by exact Hu. reflexivity.
+Qed.
+
+(* cell data: entire_array[index_map[ct]] picks the rows of the cells of that type, in file order *)
+Lemma regroup_rows_aux {A} (d : A) t : forall (cl : list cell) (pre rows : list A) from,
+  length rows = length cl -> from = lenN pre ->
+  map (fun i => nthN (pre ++ rows) i d) (indices_of t from (map fst cl))
+  = map snd (filter (fun cr => fst (fst cr) =? t) (combine cl rows)).
+Proof.
+  induction cl as [|c cl IH]; intros pre rows from Hl Hf; [reflexivity|].
+  destruct rows as [|r rows]; [discriminate|]. cbn [map indices_of combine filter fst].
+  assert (IH' := IH (pre ++ [r]) rows (from + 1)).
+  rewrite <- app_assoc in IH'. cbn [app] in IH'.
+  assert (Hl' : length rows = length cl) by (simpl in Hl; lia).
+  assert (Hf' : from + 1 = lenN (pre ++ [r])) by (rewrite lenN_app, lenN_cons, lenN_nil; lia).
+  destruct (N.eqb_spec (fst c) t) as [E|E].
+  - cbn [map snd]. f_equal; [|apply IH'; assumption].
+    unfold nthN. rewrite Hf. unfold lenN. rewrite Nat2N.id, app_nth2, Nat.sub_diag by lia. reflexivity.
+  - apply IH'; assumption.
+Qed.
+
+Theorem regroup_cell_data_correct {A} (cl : list cell) (rows : list A) (d : A) : length rows = length cl ->
+  regroup_cell_data rows (file_types cl) d
+  = map (fun t => (t, map snd (filter (fun cr => fst (fst cr) =? t) (combine cl rows)))) (unique_sorted (file_types cl)).
+Proof.
+  intros Hl. unfold regroup_cell_data. apply map_ext. intros t. f_equal. unfold file_types.
+  apply (regroup_rows_aux d t cl [] rows 0 Hl eq_refl).
+Qed.
+
+(* ------------------------------------------------------------------------------------------------ *)
+(* VTUWriter: cells type by type in mesh order; the reader hands them back per type                   *)
+(* ------------------------------------------------------------------------------------------------ *)
+Notation groups := (list (N * list (list N))).
+
+Lemma writer_arrays_are_file_arrays (g : groups) :
+  writer_connectivity g = file_connectivity (writer_cells g) /\
+  writer_offsets g = file_offsets (writer_cells g) /\
+  writer_types g = file_types (writer_cells g).
+Proof. repeat split. Qed.
+
+Lemma cells_with_type_app t a b : cells_with_type t (a ++ b) = cells_with_type t a ++ cells_with_type t b.
+Proof. unfold cells_with_type. rewrite filter_app, map_app. reflexivity. Qed.
+
+Lemma cells_with_type_group t t0 (cs : list (list N)) :
+  cells_with_type t (map (fun c => (t0, c)) cs) = if t0 =? t then cs else [].
+Proof.
+  unfold cells_with_type. induction cs as [|c cs IH]; [destruct (t0 =? t); reflexivity|].
+  cbn [map filter fst]. destruct (t0 =? t) eqn:E; cbn [map snd]; rewrite IH; reflexivity.
+Qed.
+
+Lemma writer_cells_cons t0 cs (g : groups) :
+  writer_cells ((t0, cs) :: g) = map (fun c => (t0, c)) cs ++ writer_cells g.
+Proof. reflexivity. Qed.
+
+Lemma cells_with_type_absent t (g : groups) : ~ In t (map fst g) -> cells_with_type t (writer_cells g) = [].
+Proof.
+  induction g as [|[t0 cs] g IH]; intros H; [reflexivity|].
+  rewrite writer_cells_cons, cells_with_type_app.
+  rewrite cells_with_type_group. simpl in H.
+  destruct (N.eqb_spec t0 t) as [E|E]; [exfalso; apply H; left; exact E|].
+  apply IH. intro C. apply H. right. exact C.
+Qed.
+
+Lemma cells_with_type_present t cs (g : groups) : NoDup (map fst g) -> In (t, cs) g ->
+  cells_with_type t (writer_cells g) = cs.
+Proof.
+  induction g as [|[t0 cs0] g IH]; intros Hnd Hin; [destruct Hin|].
+  rewrite writer_cells_cons, cells_with_type_app.
+  rewrite cells_with_type_group. simpl in Hnd. inversion Hnd as [|? ? Hnot Hnd']; subst.
+  destruct Hin as [E|Hin].
+  - inversion E; subst. rewrite N.eqb_refl. rewrite (cells_with_type_absent t g Hnot). apply app_nil_r.
+  - destruct (N.eqb_spec t0 t) as [E|E].
+    + exfalso. apply Hnot. subst t0. apply in_map_iff. exists (t, cs). split; [reflexivity|exact Hin].
+    + apply IH; assumption.
+Qed.
+
+Lemma in_writer_cells (g : groups) t c : In (t, c) (writer_cells g) <-> exists cs, In (t, cs) g /\ In c cs.
+Proof.
+  unfold writer_cells. rewrite in_concat. split.
+  - intros [l [Hl Hc]]. apply in_map_iff in Hl. destruct Hl as [[t0 cs] [<- Hg]].
+    apply in_map_iff in Hc. destruct Hc as [c' [E Hc']]. inversion E; subst. exists cs. split; assumption.
+  - intros [cs [Hg Hc]]. exists (map (fun c => (t, c)) cs). split.
+    + apply in_map_iff. exists (t, cs). split; [reflexivity|exact Hg].
+    + apply in_map_iff. exists c. split; [reflexivity|exact Hc].
+Qed.
+
+(* the mesh's connectivity arrays are two-dimensional: all cells of one type have the same number of corners *)
+Definition rectangular (g : groups) : Prop :=
+  forall t cs, In (t, cs) g -> exists k, Forall (fun c => lenN c = k) cs.
+
+Lemma writer_cells_uniform (g : groups) : NoDup (map fst g) -> rectangular g -> uniform (writer_cells g).
+Proof.
+  intros Hnd Hrect [t1 c1] [t2 c2] H1 H2 Et. cbn [fst snd] in *. subst t2.
+  apply in_writer_cells in H1. apply in_writer_cells in H2.
+  destruct H1 as [cs1 [G1 C1]]. destruct H2 as [cs2 [G2 C2]].
+  assert (cs1 = cs2).
+  { rewrite <- (cells_with_type_present t1 cs1 g Hnd G1). apply (cells_with_type_present t1 cs2 g Hnd G2). }
+  subst cs2. destruct (Hrect t1 cs1 G1) as [k Hk]. rewrite Forall_forall in Hk.
+  rewrite (Hk c1 C1), (Hk c2 C2). reflexivity.
+Qed.
+
+(* C13, mesh level: cells written type by type are read back per type: ascending type ids, and for every type of the
+   mesh exactly its cells in the mesh's order (a type without cells does not occur in the file) *)
+Theorem vtu_cells_write_read (g : groups) : NoDup (map fst g) -> rectangular g ->
+  let r := regroup_cells (writer_connectivity g) (writer_offsets g) (writer_types g) in
+  ascending (map fst r) /\
+  (forall t cs, In (t, cs) g -> cs <> [] -> In (t, cs) r) /\
+  (forall t cs, In (t, cs) r -> In (t, cs) g /\ cs <> []).
+Proof.
+  intros Hnd Hrect r.
+  assert (Er : r = map (fun t => (t, cells_with_type t (writer_cells g))) (unique_sorted (file_types (writer_cells g)))).
+  { unfold r. apply (vtu_regroup_correct (writer_cells g)). apply writer_cells_uniform; assumption. }
+  assert (Htypes : forall t, In t (file_types (writer_cells g)) <-> exists cs, In (t, cs) g /\ cs <> []).
+  { intros t. unfold file_types. rewrite in_map_iff. split.
+    - intros [[t' c] [E Hin]]. cbn [fst] in E. subst t'. apply in_writer_cells in Hin.
+      destruct Hin as [cs [Hg Hc]]. exists cs. split; [exact Hg|]. intro C. subst cs. destruct Hc.
+    - intros [cs [Hg Hne]]. destruct cs as [|c cs]; [congruence|]. exists (t, c). split; [reflexivity|].
+      apply in_writer_cells. exists (c :: cs). split; [exact Hg|left; reflexivity]. }
+  rewrite Er. repeat split.
+  - rewrite map_map. cbn [fst]. rewrite map_id. apply unique_sorted_ascending.
+  - intros t cs Hg Hne. apply in_map_iff. exists t. split.
+    + rewrite (cells_with_type_present t cs g Hnd Hg). reflexivity.
+    + apply unique_sorted_in. apply Htypes. exists cs. split; assumption.
+  - apply in_map_iff in H. destruct H as [t' [E Hin]]. inversion E; subst t'. subst cs.
+    apply (proj1 (unique_sorted_in _ _)) in Hin. apply (proj1 (Htypes _)) in Hin. destruct Hin as [cs [Hg Hne]].
+    rewrite (cells_with_type_present t cs g Hnd Hg). exact Hg.
+  - apply in_map_iff in H. destruct H as [t' [E Hin]]. inversion E; subst t'. subst cs.
+    apply (proj1 (unique_sorted_in _ _)) in Hin. apply (proj1 (Htypes _)) in Hin. destruct Hin as [cs [Hg Hne]].
+    rewrite (cells_with_type_present t cs g Hnd Hg). exact Hne.
+Qed.
+
+(* points padded to three coordinates: the given coordinates followed by zeros *)
+Theorem pad3_spec {A} (z : A) (p : list A) : (1 <= length p <= 3)%nat ->
+  length (pad3 z p) = 3%nat /\ firstn (length p) (pad3 z p) = p /\
+  Forall (fun x => x = z) (skipn (length p) (pad3 z p)).
+Proof.
+  intros H. destruct p as [|a [|b [|c [|d p]]]]; simpl in H; try lia; simpl; repeat split; repeat constructor.
+Qed.
